@@ -84,9 +84,10 @@ def build_data(case):
 
 def _tree(make):
     """The generated trees are valid by construction (parent -> child edges, every vertex reachable from the
-    root).  Tree.__init__ compares the *storage order* of scipy's breadth-first tree with that of the adjacency
-    matrix and so refuses some valid trees (e.g. the star 4->{1,2,3,0}); that is outside C12, so such a tree is
-    built with skip_checks=True and the refusal is only counted."""
+    root).  Before /repo commit 1ac7a59 Tree.__init__ compared the *storage order* of scipy's breadth-first tree
+    with that of the adjacency matrix and so refused some valid trees (e.g. the star 4->{1,2,3,0}); that is outside
+    C12, so on such a tree (older or mutated checkouts) the graph is built with skip_checks=True and the refusal
+    is only counted as an event."""
     try:
         return make()
     except ValueError as e:
